@@ -57,11 +57,16 @@ PROPS = {
     'C12': {'functions': ['info.SectionType.getsectioninfo', 'info.AbstractType.getsubtype',
                           'info.AbstractType.hassubtype', 'info.AbstractType.isabstract',
                           'info.SectionType.isabstract', 'info.SectionType.gettype'], 'standin': True},
-    'C13': {'functions': [], 'standin': True},
+    # frame and ownership obligations of every function of a load that touches schema objects: the
+    # modifies clauses name only matcher / loader state, results are fresh containers
+    'C13': {'functions': INFO_MATCH + MATCHER, 'standin': True},
     'C14': {'functions': [], 'standin': True},
     'C15': {'functions': [CFG + n for n in ('_normalize_case', 'nextline', 'start_section', 'end_section',
                                             'parse', 'handle_define')], 'standin': True},
-    'C16': {'functions': [], 'standin': True},
+    'C16': {'functions': ['loader.CompositeHandler.__init__', 'loader.CompositeHandler.__call__',
+                          'loader.CompositeHandler.__len__', 'matcher.BaseMatcher.__init__',
+                          'matcher.SectionMatcher.__init__', 'matcher.BaseMatcher.createChildMatcher'],
+            'bind': ['bind:handlers'], 'standin': True},
     'C17': {'functions': [], 'standin': True},
     'C18': {'functions': ['loader.BaseLoader.isPath', 'loader.BaseLoader.normalizeURL', 'loader._url_from_file',
                           'loader.BaseLoader._raise_open_error', CFG + '__init__', CFG + 'handle_include'],
